@@ -1,6 +1,9 @@
 import Adc.Generated.PreferredTable
 import Adc.Generated.ContractionTable
 import Adc.Wick
+import Adc.Generated.CodeFacts
+import Adc.Indices
+import Adc.Scaling
 /-
   Tie G: lemmas about the tables regenerated from the running code at every check run.
   A change of the code changes the generated literal; these `decide` proofs then fail at `lake build`.
@@ -39,5 +42,20 @@ theorem contractionTable_complete :
     ∀ c1 s1 c2 s2, (c1, s1, c2, s2, contrClass c1 s1 c2 s2) ∈ contractionTable := by
   intro c1 s1 c2 s2
   cases c1 <;> cases s1 <;> cases c2 <;> cases s2 <;> decide
+
+/-! ### constants of the code the model relies on (regenerated on every C08 / C16 run) -/
+
+/-- `Indices.base`: the model's alphabet of every index space is the code's (and there are exactly these three spaces) -/
+theorem codeBaseLetters_ok :
+    codeBaseLetters = [(.occ, baseLetters .occ), (.virt, baseLetters .virt), (.gen, baseLetters .gen)] ∧
+    codeBaseExtraSpaces = [] := by decide
+
+theorem codeSpins_ok : codeSpins = ["", "a", "b"] := by decide
+
+/-- `ScalingComponent` / `Scaling` are ordered dataclasses compared as (total, general, virt, occ) resp.
+    (computational, memory): the order `Scal.le` models -/
+theorem codeScal_ok :
+    codeScalFields = ["total", "general", "virt", "occ"] ∧ codeScalingFields = ["computational", "memory"] ∧
+    codeScalOrdered = true := by decide
 
 end Adc
